@@ -28,6 +28,7 @@ def run(rep: core.Report):
     rep.rule("R02b", "compiled kernel, the lattice sum: k runs over all num_satom supercell atoms and keeps exactly those with s2p_map[k] == p2s_map[j]; the block is written at [(i*3+a)*3*num_patom + j*3+b]; serial and OpenMP twins call the same element routine", 4)
     rep.rule("R02c", "Python reference: the same selection, phase, multiplicity average, mass factor and block address; full / compact rows chosen by the shape test", 6)
     rep.rule("R02d", "index maps handed to the kernel mean the same in both layouts: full (p2s_map, s2p_map), compact (arange, primitive index of every supercell atom)", 2)
+    rep.rule("R02f", "the shortest vectors handed to the Fourier sum are converted from supercell to primitive-cell coordinates with the matrix of matching orientation (frame typing), so that q.s is the phase of a reduced q-point", 1)
     rep.rule("R02e", "frequencies are sign(e) sqrt|e| * factor of the eigenvalues of that matrix", 1)
     tu = cast.load(DYN, symbolize=("PI",))
     ex = celem.ElemExec(tu, where=DYN, consts={"PI": sp.pi}, null_pointers={"charge_sum"})
@@ -133,6 +134,20 @@ def run(rep: core.Report):
         ok_comp = ok_first and ok_second
     rep.instance("R02d", PYDM, "_get_fc_elements_mapping", "compact layout: (arange(number of primitive atoms), primitive index of every supercell atom)", ok_comp,
                  "in the compact layout the kernel's tests s2p[k] == p2s[j] and row p2s[i] no longer select the images of primitive atom j and the row of atom i", line=fm.lineno)
+    # ---- R02f ------------------------------------------------------------
+    from engine import frames
+    from engine.frames import C as CART, L as LAT
+    from rules.c04 import PMAT, SIGS
+
+    CELLS = "phonopy/structure/cells.py"
+    sv = core.find_def(CELLS, "Primitive._get_smallest_vectors")
+    ty = frames.Typer(sv, seeds={"self._primitive_matrix": PMAT, "self._cell": (LAT("p", "-"), CART)}, params={}, call_sigs=SIGS, where=f"{CELLS}::Primitive._get_smallest_vectors")
+    problems = ty.run()
+    if not problems and ty.n_typed < 2:
+        raise AnalysisError(f"R02f: only {ty.n_typed} contractions typed in Primitive._get_smallest_vectors")
+    got = ty.env.get("svecs")
+    rep.instance("R02f", CELLS, "Primitive._get_smallest_vectors", f"svecs : {frames.show(got)}", not problems and got is not None and frames.same_axis(got[-1], LAT("p", "+")) is not False,
+                 (problems[0].message if problems else f"svecs are typed {frames.show(got)}") + ": the shortest vectors are not expressed in primitive-cell coordinates, so the phase 2 pi q.s is wrong whenever inv(primitive matrix) is not symmetric (non-uniform supercells of centred lattices, non-symmetric supercell matrices)", line=(problems[0].node.lineno if problems else sv.lineno))
     # ---- R02e ------------------------------------------------------------
     tree = core.parse(QP)
     conv = [n_ for n_ in ast.walk(tree) if isinstance(n_, ast.Assign) and "np.sqrt" in core.src(n_.value) and "np.sign" in core.src(n_.value)]
@@ -151,6 +166,7 @@ def selftest():
     b("mass factor uses one mass", DYN, "    mass_sqrt = sqrt(mass[i] * mass[j]);", "    mass_sqrt = sqrt(mass[i] * mass[i]);", "R02a", "mass_sqrt")
     b("python reference averages once too often", PYDM, "                        dm_local += fc_elem[k] * phase_factor / sqrt_mm / m", "                        dm_local += fc_elem[k] * phase_factor / sqrt_mm / m / m", "R02c", "_run_py_dynamical_matrix")
     b("compact mapping hands supercell indices", PYDM, "            [p2p_map[s2p_map[i]] for i in range(len(s2p_map))], dtype=\"int64\"", "            [s2p_map[i] for i in range(len(s2p_map))], dtype=\"int64\"", "R02d", "_get_fc_elements_mapping")
+    b("shortest vectors converted with inv(primitive matrix) untransposed", "phonopy/structure/cells.py", "        trans_mat_float = np.dot(supercell_bases, np.linalg.inv(primitive_bases))", "        trans_mat_float = np.linalg.inv(self._primitive_matrix)", "R02f", "_get_smallest_vectors")
     n("image selection written positively", DYN, "        if (s2p_map[k] != p2s_map[j]) {\n            continue;\n        }\n        get_dm(dm, num_patom, num_satom, fc, q, svecs, multi, p2s_map,\n               charge_sum, i, j, k);", "        if (s2p_map[k] == p2s_map[j]) {\n            get_dm(dm, num_patom, num_satom, fc, q, svecs, multi, p2s_map,\n                   charge_sum, i, j, k);\n        }")
     n("forward phase accumulated with 2 pi inside", DYN, "            phase += q[m] * svecs[adrs + l][m];\n        }\n        cos_phase += cos(phase * 2 * PI) / m_pair;\n        sin_phase += sin(phase * 2 * PI) / m_pair;", "            phase += 2 * PI * q[m] * svecs[adrs + l][m];\n        }\n        cos_phase += cos(phase) / m_pair;\n        sin_phase += sin(phase) / m_pair;")
     return V
